@@ -583,6 +583,11 @@ class Rig(object):
             return PingIqProtocolEntity(to=SERVER, _id=self._id("ping"))
         if kind == "presence":
             return PresenceProtocolEntity(_type="available", name="rig")
+        if kind in ("msg_a", "msg_b"):
+            # a text message to a 1:1 contact the store has no session with: the axolotl send layer keeps the
+            # plaintext and sends a get-keys iq down instead (state is created ABOVE the layers that may fail)
+            from yowsup.layers.protocol_messages.protocolentities import TextMessageProtocolEntity
+            return TextMessageProtocolEntity("hello", to="4915200000%d@s.whatsapp.net" % (1 if kind == "msg_a" else 2))
         if kind == "raw_node":
             return _RawIq(ProtocolTreeNode("iq", {"id": self._id("raw"), "type": "get", "xmlns": "w", "to": SERVER}))
         if kind == "bare_node":
